@@ -556,8 +556,10 @@ pub fn minimise(prop: &dyn Prop, tape: &[u32], class: &str, max_execs: usize, ma
     let t0 = Instant::now();
     let mut best: Vec<u32> = tape.to_vec();
     let mut execs = 0usize;
+    let over = std::cell::Cell::new(false);
     let mut try_cand = |cand: Vec<u32>, best: &mut Vec<u32>, execs: &mut usize| -> bool {
         if *execs >= max_execs || t0.elapsed().as_secs_f64() > max_secs {
+            over.set(true);
             return false;
         }
         *execs += 1;
@@ -580,7 +582,7 @@ pub fn minimise(prop: &dyn Prop, tape: &[u32], class: &str, max_execs: usize, ma
         progress = false;
         // 1. Truncate the tail (binary search style).
         let mut cut = best.len() / 2;
-        while cut >= 1 {
+        while cut >= 1 && !over.get() {
             if best.len() > cut {
                 let cand = best[..best.len() - cut].to_vec();
                 if try_cand(cand, &mut best, &mut execs) {
@@ -593,7 +595,7 @@ pub fn minimise(prop: &dyn Prop, tape: &[u32], class: &str, max_execs: usize, ma
         // 2. Delete blocks.
         for size in [16usize, 8, 4, 2, 1] {
             let mut i = 0;
-            while i + size <= best.len() {
+            while i + size <= best.len() && !over.get() {
                 let mut cand = best.clone();
                 cand.drain(i..i + size);
                 if try_cand(cand, &mut best, &mut execs) {
@@ -606,7 +608,7 @@ pub fn minimise(prop: &dyn Prop, tape: &[u32], class: &str, max_execs: usize, ma
         // 3. Zero blocks / single values.
         for size in [8usize, 1] {
             let mut i = 0;
-            while i + size <= best.len() {
+            while i + size <= best.len() && !over.get() {
                 if best[i..i + size].iter().any(|v| *v != 0) {
                     let mut cand = best.clone();
                     for v in &mut cand[i..i + size] {
@@ -621,7 +623,7 @@ pub fn minimise(prop: &dyn Prop, tape: &[u32], class: &str, max_execs: usize, ma
         }
         // 4. Halve / decrement values.
         let mut i = 0;
-        while i < best.len() {
+        while i < best.len() && !over.get() {
             if best[i] > 0 {
                 let mut cand = best.clone();
                 cand[i] /= 2;
